@@ -171,7 +171,9 @@ class ParetoDecrease(PenaltyStrategy):
 
         bound = min(obj_bound, cons_bound)
 
-        assert np.isfinite(bound)
+        if not np.isfinite(bound):
+            # products of huge multipliers overflowed (single precision): no usable bound
+            return PenaltyResult.accept_with_penalty(self.rho)
 
         next_rho = min(self.rho * 10.0, bound)
         next_rho = max(next_rho, self.rho)
